@@ -537,11 +537,16 @@ func (fr *Frame) enterLoop(li *loopInfo, preds []*ssa.BasicBlock, conds []string
 			if om != nil && !om.whole && len(om.objs) > 0 && s.K == KArr {
 				// only the listed (loop-invariant) objects are written: quantifier-free frame
 				t := ex.get(fr.cur, m)
+				var fvs []string
 				for k, o := range om.objs {
 					fv := vc.fresh(fmt.Sprintf("%s_loop%d_%d", m, li.ordinal, k), s.Elem)
 					t = "(store " + t + " " + o + " " + fv + ")"
+					fvs = append(fvs, fv)
 				}
 				ex.set(fr.cur, m, t)
+				for k, o := range om.objs {
+					ex.assumeFieldInvAt(fr.cur, m, o, fvs[k])
+				}
 				continue
 			}
 			ex.havoc(fr.cur, m)
@@ -671,7 +676,7 @@ func (fr *Frame) val(v ssa.Value) *Val {
 		elem := c.Type().(*types.Pointer).Elem()
 		s := ex.w.SortOf(elem)
 		ex.regSV(name, s)
-		r := &Val{S: SRef("cell"), Ptr: &LPath{Kind: "global", Var: name, Sort: s}, GoT: c.Type(), T: "0"}
+		r := &Val{S: SRef("cell"), Ptr: &LPath{Kind: "global", Var: name, Sort: s, LibErr: c.Pkg != ex.pkg && elem.String() == "error"}, GoT: c.Type(), T: "0"}
 		fr.vals[v] = r
 		return r
 	case *ssa.Function:
